@@ -122,7 +122,7 @@ AddNames(acc, names, i) ==
 
 \* ArgumentConditions.Validate
 CondProblems(cs) ==
-  (IF \E k \in 1..Len(cs) : cs[k].arg > 5 THEN {"argument"} ELSE {}) \cup
+  (IF \E k \in 1..Len(cs) : cs[k].arg \notin 0..5 THEN {"argument"} ELSE {}) \cup
   (IF "UnknownOpDropped" \notin Dev /\ \E k \in 1..Len(cs) : cs[k].op \notin OpSet THEN {"operation"} ELSE {})
 
 RECURSIVE AddConds(_, _, _)
@@ -280,7 +280,7 @@ GroupDefect(g) ==
   \/ \E i, k \in 1..Len(g.names) : i # k /\ g.names[i] = g.names[k]
   \/ \E i \in 1..Len(g.names), k \in 1..Len(g.conds) : g.names[i] = g.conds[k].num
   \/ \E i \in 1..Len(g.conds) : \E k \in 1..Len(g.conds[i].conds) :
-        g.conds[i].conds[k].arg > 5 \/ g.conds[i].conds[k].op \notin OpSet
+        g.conds[i].conds[k].arg \notin 0..5 \/ g.conds[i].conds[k].op \notin OpSet
 HasDefect(pol) ==
   \/ pol.def \notin NamedActions
   \/ pol.groups = <<>>
